@@ -134,8 +134,11 @@ Qed.
 Print Assumptions excepted_state_is_the_only_leak.
 
 (* 5b. the reuse exception is well-founded: a call without reuse_internal_data never leaves a cache of its
-   own in "_internal_data" - not when it returns and not when a stage gives up (the non-convergence raise of
-   hydraulics / bidirectional / heat_transfer); stated on the effect of the actual execution *)
+   own in "_internal_data" - not when it returns, not when a stage gives up (the non-convergence raise of
+   hydraulics / bidirectional / heat_transfer) and not when ANYTHING is raised while the Newton loop runs
+   (every explicit raise site reached from newton_raphson, and an implicit exception at any point: [stage_failure]
+   holds for all sites named ...@newton_raphson); stated on the effect of the actual execution.  try/except blocks
+   of the sources are part of the generated programs (handler events precede the re-raise). *)
 Theorem no_cache_left_behind : forall V fw fb present N x, In x all_progs -> snd (fst x) = false ->
   forall (s : st V),
     match exec V fw fb present N (prog_of x) s with
@@ -151,6 +154,23 @@ Proof.
   - intros Hd E. specialize (G Hd). rewrite E in G. simpl in G. congruence.
 Qed.
 Print Assumptions no_cache_left_behind.
+
+(* 6. transient thermal calculation (transient=True): the internal tables are carried from step to step by design.
+   Exactly these keys are read from the previous call: none in the first step (simulation_time_step = 0); "_pit",
+   "_old_pit" and "converged" in later steps; in mode bidirectional additionally "_active_pit" (read by
+   Junction.extract_results; path-insensitive: only if the loop body never ran).  With them as exceptions the scan
+   accepts, so by scan_sound a transient step is a function of the description, its arguments and these keys; the
+   user part is never written. *)
+Theorem transient_carried_keys :
+  forall m st p, In (m, st, p) transient_progs ->
+    same_set (needed 16 [] p) (carried m st) = true /\ accepts (carried m st) p = true /\ writes_user p = false.
+Proof.
+  intros m st p Hin. generalize transient_ok_true. unfold transient_ok. intros H.
+  apply andb_true_iff in H. destruct H as [H _]. rewrite forallb_forall in H. specialize (H _ Hin).
+  cbv beta iota in H. apply andb_true_iff in H. destruct H as [H H3].
+  apply andb_true_iff in H. destruct H as [H1 H2]. apply negb_true_iff in H3. repeat split; assumption.
+Qed.
+Print Assumptions transient_carried_keys.
 
 (* mode heat consists of the same set-up phases and the same thermal-stage program as mode sequential *)
 Theorem heat_from_stored_equals_sequential_stage : heat_tail_ok = true.
